@@ -126,7 +126,12 @@ impl RemovalBuffer {
         entity: Entity,
         removed_components: &HashSet<ComponentId>,
     ) {
-        let mut removed_ids = self.ids_buffer.pop().unwrap_or_default();
+        // Removals can be buffered over several frames before the next tick,
+        // so continue from the components already registered for this entity.
+        let mut removed_ids = self
+            .removals
+            .remove(&entity)
+            .unwrap_or_else(|| self.ids_buffer.pop().unwrap_or_default());
         for rule in rules
             .iter()
             .filter(|rule| rule.matches_removals(archetype, removed_components))
